@@ -749,6 +749,37 @@ static CPU_FEATURES: OnceLock<CpuFeatures> = OnceLock::new();
 /// This is the main API for accessing CPU features with comprehensive
 /// detection capabilities following the SIMD implementation plan Phase 1.1
 pub fn get_cpu_features() -> &'static CpuFeatures {
+    #[cfg(feature = "verif-hooks")]
+    if let Some(tier) = crate::verif_hooks::forced_cpu_tier() {
+        static FORCED: OnceLock<CpuFeatures> = OnceLock::new();
+        return FORCED.get_or_init(|| {
+            use crate::verif_hooks::CpuTier;
+            let mut f = if cfg!(miri) {
+                CpuFeatures::new()
+            } else {
+                RuntimeCpuFeatures::new().detect_features()
+            };
+            f.has_avx512f = false;
+            f.has_avx512vl = false;
+            f.has_avx512bw = false;
+            f.has_avx512vpopcntdq = false;
+            if tier != CpuTier::Avx2 {
+                f.has_avx = false;
+                f.has_avx2 = false;
+                f.has_bmi1 = false;
+                f.has_bmi2 = false;
+                f.has_lzcnt = false;
+                f.has_tzcnt = false;
+            }
+            if tier == CpuTier::Scalar {
+                f.has_sse41 = false;
+                f.has_sse42 = false;
+                f.has_popcnt = false;
+            }
+            f.detect_and_configure_simd();
+            f
+        });
+    }
     CPU_FEATURES.get_or_init(|| {
         RuntimeCpuFeatures::new().detect_features()
     })
